@@ -107,7 +107,13 @@ func (t *timeScalar) CoerceOut(v interface{}) (interface{}, error) {
 		v = nil
 	}
 	if err == nil && v != nil {
-		v = tt.In(time.UTC).Format(time.RFC3339Nano)
+		tt = tt.In(time.UTC)
+		// RFC 3339 has four digits for the year, a time outside of that can
+		// not be written.
+		if y := tt.Year(); y < 0 || 9999 < y {
+			return nil, fmt.Errorf("%w a time in the year %d into a Time, out of range", ErrCoerce, y)
+		}
+		v = tt.Format(time.RFC3339Nano)
 	}
 	return v, err
 }
